@@ -24,6 +24,8 @@ THEOREMS = [
     "compaction_sorted_perm", "merge_heap_bounds", "merge_heap_sorted", "topn_heap_eq_order_limit",
     "concat_scan_sorted_iff", "table_scan_sorted", "table_scan_sorted_under_range", "two_rowsets_scan_sorted", "scan_contract_sorted", "order_analysis_sound",
     "useless_order_sound_partial", "useless_order_sound", "reachable_rowsets_sorted", "useless_order_sound_reachable",
+    "order_arm_Scan", "order_arm_Order", "order_arm_TopN", "order_arm_Proj", "order_arm_Filter", "order_arm_Window", "order_arm_Limit",
+    "order_arm_MergeJoin", "order_arm_SortAgg", "mergejoin_order_claim_needs_group_eq", "hashjoin_probe_order", "hashjoin_left_outer_order_unsound",
 ]
 
 PRECEDENCE = [
@@ -946,12 +948,198 @@ end RlModel.Gen
     return text
 
 
+# ---------------------------------------------------------------------------------------------
+# translator: the match arms of `analyze_order` (what order the planner claims for each operator)
+# ---------------------------------------------------------------------------------------------
+import re
+
+FIELDS = {
+    "Order": ["keys", "child"], "TopN": ["limit", "offset", "keys", "child"], "Proj": ["exprs", "child"],
+    "Filter": ["cond", "child"], "Window": ["fns", "child"], "Limit": ["limit", "offset", "child"],
+    "SortAgg": ["keys", "aggs", "child"], "HashAgg": ["keys", "aggs", "child"], "Agg": ["aggs", "child"],
+    "Empty": ["child"], "Distinct": ["keys", "child"],
+    "MergeJoin": ["type", "cond", "lkeys", "rkeys", "left", "right"],
+    "HashJoin": ["type", "cond", "lkeys", "rkeys", "left", "right"],
+    "Join": ["type", "cond", "left", "right"], "Apply": ["type", "left", "right"],
+}
+JOINS = {"MergeJoin", "HashJoin", "Join", "Apply"}
+JT = {"Inner": "inner", "LeftOuter": "leftOuter", "RightOuter": "rightOuter", "FullOuter": "fullOuter", "Semi": "semi", "Anti": "anti"}
+ROLE = {"keys": "keys", "child": "xc", "left": "xl", "right": "xr", "lkeys": "lks", "rkeys": "rks"}
+SCAN_BODY_SHA = None   # filled below from the text this translator understands
+SCAN_BODY = """{ let primary_key = egraph[*cols].as_list().iter().find(|id| { let catalog = &egraph.analysis.catalog; match catalog.get_column(&egraph[**id].as_column()) { Some(col) => col.is_primary(), None => false, } }); match primary_key { Some(id) => Box::new([*id]), None => Box::new([]), } }"""
+
+
+def _matching(s, i):
+    """index just after the bracket matching s[i] ('{' or '[' or '(')"""
+    open_, close = s[i], {"{": "}", "[": "]", "(": ")"}[s[i]]
+    d = 0
+    for j in range(i, len(s)):
+        if s[j] == open_:
+            d += 1
+        elif s[j] == close:
+            d -= 1
+            if d == 0:
+                return j + 1
+    raise ValueError("unbalanced")
+
+
+def _arms(body):
+    """splits the inside of a `match … { … }` into (pattern, body) at depth 0"""
+    arms, i, n = [], 0, len(body)
+    while i < n:
+        while i < n and body[i] in " \n\t,":
+            i += 1
+        if i >= n:
+            break
+        j = body.index("=>", i)
+        pat = body[i:j].strip()
+        k = j + 2
+        while body[k] in " \n\t":
+            k += 1
+        if body[k] == "{":
+            e = _matching(body, k)
+        elif body.startswith("match", k):
+            b = body.index("{", k)
+            e = _matching(body, b)
+        else:
+            d, e = 0, k
+            while e < n and not (body[e] == "," and d == 0):
+                d += body[e] in "([{"
+                d -= body[e] in ")]}"
+                e += 1
+        arms.append((pat, " ".join(body[k:e].split())))
+        i = e
+    return arms
+
+
+def _claim_expr(body, binds, op):
+    """x(v).clone() / Box::new([]) -> Lean term over keys/xc/xl/xr/lks/rks"""
+    if re.fullmatch(r"Box::new\(\[\]\)", body):
+        return "[]"
+    m = re.fullmatch(r"x\((\w+)\)\.clone\(\)", body)
+    if not m or m.group(1) not in binds:
+        raise ValueError("arm %s: cannot read claim `%s`" % (op, body))
+    role = FIELDS[op][binds[m.group(1)]]
+    if role not in ROLE:
+        raise ValueError("arm %s: x(%s) is the `%s` operand, which has no order" % (op, m.group(1), role))
+    return ROLE[role]
+
+
+def parse_order_arms(src):
+    i = src.index("pub fn analyze_order")
+    fb = src.index("{", i)
+    fn = src[fb:_matching(src, fb)]
+    fn = re.sub(r"//[^\n]*", "", fn)
+    mi = fn.index("match enode")
+    mb = fn.index("{", mi)
+    inner = fn[mb + 1:_matching(fn, mb) - 1]
+    claims, notes = {}, []
+    default_seen = False
+    for pat, body in _arms(inner):
+        guard = None
+        if " if " in pat:
+            pat, guard = pat.split(" if ", 1)
+        alts = [a.strip() for a in re.split(r"\|(?![^\[]*\])", pat)]
+        for alt in alts:
+            if alt == "_":
+                if body != "Box::new([])":
+                    raise ValueError("default arm is not `Box::new([])`: " + body)
+                default_seen = True
+                continue
+            m = re.fullmatch(r"(\w+)\((.*)\)", alt, re.S)
+            if not m:
+                raise ValueError("cannot read pattern `%s`" % alt)
+            op, args = m.group(1), m.group(2).strip()
+            if op == "List":
+                if body != "keys.clone()":
+                    raise ValueError("List arm changed: " + body)
+                notes.append("List(keys) => keys.clone()   (a key list denotes itself)")
+                continue
+            if op == "Scan":
+                if guard is None or "table_is_sorted_by_primary_key" not in guard or " ".join(body.split()) != SCAN_BODY:
+                    raise ValueError("Scan arm is not the one the translator understands: %s if %s" % (body[:200], guard))
+                claims["Scan"] = ("scan", "scanClaim primary cols")
+                continue
+            if op not in FIELDS:
+                raise ValueError("arm for operator `%s`: unknown operator" % op)
+            if guard is not None:
+                raise ValueError("arm %s has a guard the translator does not read: %s" % (op, guard))
+            names = [a.strip() for a in args.strip("[]").split(",")]
+            if len(names) != len(FIELDS[op]):
+                raise ValueError("arm %s: %d operands, expected %d" % (op, len(names), len(FIELDS[op])))
+            binds = {nm: k for k, nm in enumerate(names) if nm != "_"}
+            if body.startswith("match"):
+                mm = re.fullmatch(r"match egraph\[\*(\w+)\]\.nodes\[0\] \{(.*)\}", body, re.S)
+                if not mm or op not in JOINS or FIELDS[op][binds.get(mm.group(1), -1)] != "type":
+                    raise ValueError("arm %s: cannot read nested match `%s`" % (op, body[:120]))
+                cases, dflt = [], None
+                for p2, b2 in _arms(mm.group(2)):
+                    for jt in [x.strip() for x in p2.split("|")]:
+                        if jt == "_":
+                            dflt = _claim_expr(b2, binds, op)
+                        elif jt in JT:
+                            cases.append((JT[jt], _claim_expr(b2, binds, op)))
+                        else:
+                            raise ValueError("arm %s: unknown join type `%s`" % (op, jt))
+                if dflt is None:
+                    raise ValueError("arm %s: nested match without default" % op)
+                term = "match t with\n" + "".join("  | .%s => %s\n" % c for c in cases) + "  | _ => %s" % dflt
+                claims[op] = ("join", term)
+            else:
+                claims[op] = ("join" if op in JOINS else "unary", _claim_expr(body, binds, op))
+    if not default_seen:
+        raise ValueError("no default arm")
+    return claims, notes
+
+
+def gen_order_arms(repo, write=True):
+    lean_dir = vlib.LEAN
+    src = open(os.path.join(repo, "src/planner/rules/order.rs")).read()
+    claims, notes = parse_order_arms(src)
+    out = ["/- GENERATED on every run of ./check C12 by checks/c12.py (gen_order_arms) from the match arms of",
+           "   `analyze_order` in src/planner/rules/order.rs. Do not edit.",
+           "   For every operator with an explicit arm: `claim_<Op>`, the order the planner claims for the node's",
+           "   output in terms of its own key list (`keys`; joins: `lks`/`rks`) and of the orders claimed for its",
+           "   children (`xc`; joins: `xl`/`xr`). Operators without an arm claim no order (`_ => []`).",
+           "   Theorem `order_arm_<Op>` (Thm/C12.lean) is the obligation of the arm.", "-/",
+           "import RlModel.Model.OrderSem", "namespace RlModel.Gen", ""]
+    for n in notes:
+        out.append("-- " + n)
+    out.append("def orderArms : List String := [%s]" % ", ".join('"%s"' % k for k in claims))
+    out.append("")
+    for op, (kind, term) in claims.items():
+        if kind == "scan":
+            out.append("/-- the first primary-key column of the scan list, if the engine's scans are key-ordered -/")
+            out.append("def claim_Scan (sortedByPk : Bool) (primary cols : List Nat) : List OrdKey :=")
+            out.append("  if sortedByPk then match cols.find? (fun c => primary.contains c) with")
+            out.append("    | some c => [⟨c, false⟩]\n    | none => []\n  else []")
+        elif kind == "unary":
+            out.append("def claim_%s (keys xc : List OrdKey) : List OrdKey := %s" % (op, term))
+        else:
+            out.append("def claim_%s (t : JT) (lks rks xl xr : List OrdKey) : List OrdKey :=\n  %s" % (op, term.replace("\n", "\n  ")))
+        out.append("")
+    out.append("end RlModel.Gen")
+    text = "\n".join(out) + "\n"
+    path = os.path.join(lean_dir, "RlModel", "Gen", "OrderArms.lean")
+    if write:
+        old = open(path).read() if os.path.exists(path) else None
+        if old != text:
+            open(path, "w").write(text)
+    return text, list(claims)
+
+
+
+ORDER_ARMS = []
+
+
 def run_translators(ck):
     """Step 1 of both checks: the parts of the model that are DATA in the source are regenerated
     from the repository under test (never from a previous run's copy)."""
-    for name, f in (("merge-heap-bounds", gen_merge_heap), ("rowset-stop-condition", gen_rowset_stop)):
+    for name, f in (("merge-heap-bounds", gen_merge_heap), ("rowset-stop-condition", gen_rowset_stop), ("order-arms", gen_order_arms)):
         try:
-            f(vlib.REPO)
+            res = f(vlib.REPO)
+            if name == "order-arms":
+                ORDER_ARMS[:] = res[1]
         except Exception as ex:     # strict translator: anything unparsed fails the check
             ck.report("translator:" + name, "the source is no longer in the shape the translator reads: %s" % ex,
                       replay={"translator": name, "error": str(ex)}, found_input=False)
@@ -1002,7 +1190,10 @@ def finish_reports(ck, T, binname):
 def run(ck):
     n = 420 if ck.quick() else 2500
     run_translators(ck)
-    bad = vlib.step_lean(ck, "RlModel.Thm.C12", THEOREMS, extra_targets=["drv_c12"])
+    # one obligation per explicit arm of analyze_order, named after the operator: an arm the source
+    # gains (or whose lemma is gone) is an undischarged obligation
+    theorems = THEOREMS + ["order_arm_" + op for op in ORDER_ARMS if "order_arm_" + op not in THEOREMS]
+    bad = vlib.step_lean(ck, "RlModel.Thm.C12", theorems, extra_targets=["drv_c12"])
     ok, log = vlib.step_cargo(ck, ["c12"])
     if not ok:
         ck.report("build:harness", "harness does not build against the repository", replay={"log": log[-2000:]}, found_input=False)
@@ -1029,7 +1220,7 @@ def run(ck):
         search["implementation_sample"] = impl_search(ck, T, "c12", "c12", "drv_c12", jd)
     cfs = run_counterfactuals(ck, T, "c12", "drv_c12", jd)
     # theorem failures: the obligations no longer check -> look whether the oracle found an unexplained failure
-    unexplained = [f for f in T.findings if f[0].startswith("unexplained")]
+    unexplained = [f for f in T.findings if ("C12", f[0]) not in ck.known]
     for name, st in bad.items():
         if unexplained:
             sig, what, rep = unexplained[0]
